@@ -57,7 +57,7 @@ class Driver:
             pass
 
     def seeds(self):
-        S = [[], [("tuple",), ("V_tup", 0), ("V_tup", 0), ("V_tup", 0)]]
+        S = [[], [("tuple",), ("V_tup", 0), ("V_tup", 0), ("V_tup", 0)], [("tuple",), ("V_tup", 0), ("V_tup", 0)]]
         return [S[i] for i in self.seed_ids]
 
     def snapshot(self, world):
@@ -384,13 +384,13 @@ def _py(hist):
 def check(ctx):
     agg = Agg()
     depth = ctx.pick(6, 7)
-    depth_b = ctx.pick(5, 6)
+    depth_b = ctx.pick(4, 6)
     dev = ctx.pick(1, 2)
     explorer.bfs(Driver(max_dev=dev, seed_ids=(0,)), depth, agg)
     sizes_a = agg.notes.get("frontier_sizes")
-    explorer.bfs(Driver(max_dev=dev, seed_ids=(1,)), depth_b, agg)
-    agg.notes["frontier_sizes"] = {"empty-world": sizes_a, "three-sharers": agg.notes.get("frontier_sizes")}
-    agg.notes["bound"] = (f"histories <= {depth} events from the empty world and <= {depth_b} events from the world with three vectors over one "
+    explorer.bfs(Driver(max_dev=dev, seed_ids=(1, 2)), depth_b, agg)
+    agg.notes["frontier_sizes"] = {"empty-world": sizes_a, "two-and-three-sharers": agg.notes.get("frontier_sizes")}
+    agg.notes["bound"] = (f"histories <= {depth} events from the empty world and <= {depth_b} events from the worlds with two / three vectors over one "
                           f"caller tuple, <= {dev} identity-reuse deviation(s)")
     agg.notes["deviation_bound"] = dev
     agg.sample({"events": ["tuple", "V_tup", "V_list", "copy", "T_dict", "t_setattr_list", "w_int", "drop", "collect", "...+alloc choices"]})
